@@ -1,7 +1,7 @@
 (* Proofs about the code generator model: every name of a legal interface reaches the wire under
    its IDL spelling (through the proxy macro / serde / ReplyError models of Codegen.v), and the
    generator's keyword list covers the Rust Reference's. *)
-From ZV Require Import Codegen.IdlTy Codegen.Names gen.Keywords Codegen.Codegen.
+From ZV Require Import Codegen.IdlTy Codegen.Names gen.Keywords gen.MacroLocals Codegen.Codegen.
 From Coq Require Import Lia.
 Open Scope string_scope.
 
@@ -270,6 +270,27 @@ Theorem unrawable_covered :
 Proof.
   assert (forallb (fun k => mem k generator_unrawable) not_raw_keywords = true) as H by (vm_compute; reflexivity).
   intros k Hin. apply mem_In. exact (proj1 (forallb_forall _ _) H k Hin).
+Qed.
+
+(* every identifier of the macros' emitted code that is a legal IDL name is classified *)
+Theorem macro_locals_classified :
+  forall l, In l (reply_error_locals ++ proxy_locals) -> field_name_ok l = true ->
+  In l known_shadowed_members \/ In l harmless_value_locals.
+Proof.
+  assert (forallb (fun l => negb (field_name_ok l) || mem l known_shadowed_members || mem l harmless_value_locals)
+                  (reply_error_locals ++ proxy_locals) = true) as H by (vm_compute; reflexivity).
+  intros l Hin Hl. pose proof (proj1 (forallb_forall _ _) H l Hin) as P. cbn beta in P.
+  rewrite Hl in P. cbn [negb orb] in P. apply orb_prop in P as [P|P]; [left|right]; now apply mem_In.
+Qed.
+
+Theorem macro_type_names_classified :
+  forall t, In t (reply_error_type_names ++ proxy_type_names) -> type_name_ok t = true ->
+  In t known_captured_types \/ In t harmless_type_names.
+Proof.
+  assert (forallb (fun l => negb (type_name_ok l) || mem l known_captured_types || mem l harmless_type_names)
+                  (reply_error_type_names ++ proxy_type_names) = true) as H by (vm_compute; reflexivity).
+  intros l Hin Hl. pose proof (proj1 (forallb_forall _ _) H l Hin) as P. cbn beta in P.
+  rewrite Hl in P. cbn [negb orb] in P. apply orb_prop in P as [P|P]; [left|right]; now apply mem_In.
 Qed.
 
 (* ------------------------------------------------------------------ witnesses *)
